@@ -15,6 +15,12 @@ def ordering_of(t):
         t = t[2][0]
     if agg_variant(t) and t[1][1].endswith('cmp::Ordering'):
         return t[1][2]
+    # a comparison of two constants (`ARRAY_LEVEL.cmp(&OBJECT_LEVEL)`) is the constant it evaluates to
+    t = deref_all(t)
+    if t[0] == 'call' and canon(t[1]).endswith('Ord::cmp') and len(t[2]) == 2:
+        a, b = const_of(deref_all(t[2][0])), const_of(deref_all(t[2][1]))
+        if isinstance(a, int) and isinstance(b, int) and not isinstance(a, bool) and not isinstance(b, bool):
+            return 'Less' if a < b else ('Greater' if a > b else 'Equal')
     return None
 
 
